@@ -34,6 +34,7 @@ type Result struct {
 // execution starts from the same state.
 func ResetGlobals() {
 	lang.GlobalPipes = pipes.NewNamed()
+	lang.GlobalVariables = lang.NewGlobals()
 }
 
 // RunBlock executes block in a fresh function-scope fork (the seam test.RunMurexTests uses).
